@@ -67,3 +67,12 @@ Theorem C29_stretch_keeps_newline :
     c_eol c = true -> ends_nl line = true -> ends_nl (stretch c line sep extra) = true.
 Proof. exact stretch_keeps_newline. Qed.
 Print Assumptions C29_stretch_keeps_newline.
+
+(* A negative float whose "%.16g" text has one significant digit and an exponent ("-2e-05"): one float token in
+   the repaired grammar; the int -2 and the word "e-05" (later fields shifted) in the grammar as found. *)
+Theorem C29_mixed_exp_sign :
+  parse_line cfg_fixed " " "x -2e-05 y" = inr [TStr "x"; TFloat "-2E-05"; TStr "y"] /\
+  parse_line cfg_found " " "x -2e-05 y" = inr [TStr "x"; TInt (-2); TStr "e-05"; TStr "y"].
+Proof. exact mixed_exp_sign. Qed.
+Print Assumptions C29_mixed_exp_sign.
+
